@@ -1996,7 +1996,7 @@ impl GlobalInferenceCtx<'_> {
                                             continue;
                                         }
 
-                                        let Ty::Enum { ref variants, .. } = *scrutinee_ty else {
+                                        let Ty::Enum { ref variants, .. } = *scrutinee_ty.absolute_ty() else {
                                             unreachable!();
                                         };
 
@@ -2058,7 +2058,7 @@ impl GlobalInferenceCtx<'_> {
                                 }
                             }
 
-                            let mut variants: Vec<VariantToCheck> = match *scrutinee_ty {
+                            let mut variants: Vec<VariantToCheck> = match *scrutinee_ty.absolute_ty() {
                                 Ty::Optional { sub_ty } => {
                                     vec![sub_ty.into(), Intern::new(Ty::Nil).into()]
                                 }
@@ -2211,7 +2211,7 @@ impl GlobalInferenceCtx<'_> {
 
                             let variant_ty = match this_variant {
                                 ArmVariant::Shorthand(name) => {
-                                    let Ty::Enum { variants, .. } = scrutinee_ty.as_ref() else {
+                                    let Ty::Enum { variants, .. } = scrutinee_ty.absolute_ty() else {
                                         // an error will be reported so we don't have to do
                                         // anything here
                                         break 'switch_arg Ty::Unknown.into();
